@@ -483,3 +483,133 @@ def timezone_through_xpath(neg: bool, h: int, m: int) -> bool:
     r = T_TZ['tz'].evaluate(XPathContext(item=1, variables={'s': '12:00:00' + text}))
     r = r[0] if isinstance(r, list) else r
     return r.seconds == (h * 60 + m) * 60 * (-1 if neg else 1)
+
+
+# --- E2: AbstractDateTime.todelta() for years outside 1..9999, with a contract model of datetime -------------------------------
+
+class DTv:
+    """contract model of a naive datetime.datetime: fields as z3 Int terms (or ints)"""
+    def __init__(self, year, month, day, hour=0, minute=0, second=0, microsecond=0):
+        self.f = dict(year=year, month=month, day=day, hour=hour, minute=minute, second=second, microsecond=microsecond, tzinfo=None)
+
+    def sym_attr(self, fn, name):
+        if name in self.f:
+            return self.f[name]
+        raise PS.Unsupported('datetime attribute ' + name)
+
+    def us_of_day(self):
+        f = self.f
+        return ((f['hour'] * 60 + f['minute']) * 60 + f['second']) * 10 ** 6 + f['microsecond']
+
+    def sym_binop(self, fn, op, other, reflected):
+        import ast as _ast
+        if isinstance(other, datetime.datetime) and other.tzinfo is None:
+            other = DTv(other.year, other.month, other.day, other.hour, other.minute, other.second, other.microsecond)
+        if isinstance(op, _ast.Sub) and isinstance(other, DTv) and not reflected:
+            # contract of datetime subtraction: difference of proleptic ordinals and of the times of day
+            d = z_civil_days(self.f['year'], self.f['month'], self.f['day']) - z_civil_days(other.f['year'], other.f['month'], other.f['day'])
+            return TDv(d * 86400 * 10 ** 6 + self.us_of_day() - other.us_of_day())
+        raise PS.Unsupported('datetime operator')
+
+
+class TDv:
+    """contract model of datetime.timedelta: total microseconds (Int term)"""
+    def __init__(self, total_us):
+        self.total_us = total_us
+
+    def sym_attr(self, fn, name):
+        t = self.total_us
+        day_us = 86400 * 10 ** 6
+        if name == 'days':
+            return t / day_us                      # floor (normalised timedelta)
+        if name == 'seconds':
+            return (t % day_us) / 10 ** 6
+        if name == 'microseconds':
+            return t % 10 ** 6
+        if name == 'total_seconds':
+            return PS.SymCallable(lambda fn_: PS.Sym(z3.ToReal(t) / 10 ** 6, float))
+        raise PS.Unsupported('timedelta attribute ' + name)
+
+
+def _dt_ctor(fn, year, month=None, day=None, hour=0, minute=0, second=0, microsecond=0, tzinfo=None):
+    if tzinfo is not None:
+        raise PS.Unsupported('aware datetime')
+    return DTv(PS.unwrap(year), PS.unwrap(month), PS.unwrap(day), hour, minute, second, microsecond)
+
+
+def _td_ctor_real(fn, days=0, seconds=0, microseconds=0):
+    """datetime.timedelta(days=int, seconds=float): contract = exact sum, rounded to microseconds (the float here is k/10^6)"""
+    d, s_, u = PS.unwrap(days), PS.unwrap(seconds), PS.unwrap(microseconds)
+    total = z3.ToReal(d) * 86400 * 10 ** 6 if z3.is_expr(d) and d.sort() == z3.IntSort() else d * 86400 * 10 ** 6
+    s_real = z3.ToReal(s_) if z3.is_expr(s_) and s_.sort() == z3.IntSort() else s_
+    total = total + s_real * 10 ** 6 + (z3.ToReal(u) if z3.is_expr(u) and u.sort() == z3.IntSort() else u)
+    return TDreal(total)
+
+
+class TDreal:
+    def __init__(self, total_us_real):
+        self.total_us_real = total_us_real
+
+
+def _todelta_obligation(era):
+    q = Queries(timeout_s=120, diff_binary=False)
+    y, mo, d, h, mi, s_, us = z3.Ints('y mo d h mi s us')
+    # the proxy year of the internal datetime is 4 (leap) or 6 (common): it only has to be consistent with month/day
+    proxy = z3.Int('proxy')
+    dt = DTv(proxy, mo, d, h, mi, s_, us)
+    me = PS.Obj('self', dict(_year=y, year=y, _dt=dt))
+    stubs = {'datetime.datetime': _dt_ctor, 'datetime.timedelta': _td_ctor_real}
+    try:
+        r = PS.translate(DateTime.todelta, [me], stubs=stubs, raw_outcomes=True)
+    except PS.Unsupported as e:
+        return q.result(not_encodable=str(e))
+    outs = [(c, v) for c, v in r['rets'] if isinstance(v, TDreal)]
+    if not outs:
+        return q.result(not_encodable='no timedelta returned on the far-year path (%d outcomes)' % len(r['rets']))
+    total = None
+    for c, v in reversed(outs):
+        total = v.total_us_real if total is None else z3.If(c, v.total_us_real, total)
+    rng = [1 <= mo, mo <= 12, 1 <= d, d <= 28, 0 <= h, h <= 23, 0 <= mi, mi <= 59, 0 <= s_, s_ <= 59, 0 <= us, us < 10 ** 6,
+           z3.Or(proxy == 4, proxy == 6)]
+    if era == 'far':
+        rng += [y >= 10000, y <= YB]
+        astro = y
+    else:
+        rng += [y <= -1, y >= -YB]
+        astro = y + 1
+    want = z3.ToReal(z_civil_days(astro, mo, d) * 86400 * 10 ** 6 + ((h * 60 + mi) * 60 + s_) * 10 ** 6 + us)
+    base = list(r['fn'].side) + rng
+    res, m0 = q.check('reach', base + [us > 0, d > 1], expect='sat')
+    q.sat = []
+    if m0 is not None:
+        q.samples.append('year=%s month=%s day=%s %s:%s:%s.%s' % tuple(mval(m0, v) for v in (y, mo, d, h, mi, s_, us)))
+    cex = []
+    items = []
+    for mm in range(1, 13):
+        items.append(('month=%d: todelta = civil day number and time of day' % mm, base + [mo == mm, total != want], [y, mo, d, h, mi, s_, us]))
+    for name, (res, vals) in q.check_many(items, seeds=2).items():
+        if res == 'sat':
+            cex.append(dict(call='replay_todelta(%d, %d, %d, %d, %d, %d, %d)' % tuple(vals[k] for k in ('y', 'mo', 'd', 'h', 'mi', 's', 'us')),
+                            message='todelta differs from the civil calendar'))
+    q.check('never raises / table index in range', base + [z3.Or(r['raised'], *r['oob'])])
+    return q.result(cex[:6], detail=dict(stubs=sorted(set(r['notes']))))
+
+
+def replay_todelta(y, mo, d, h, mi, s, us):
+    if abs(y) > FAR:
+        return True      # timedelta itself overflows: outside the replayable range
+    td = DateTime(y, mo, d, h, mi, s, us).todelta()
+    want = datetime.timedelta(days=civil_days(_astro(y), mo, d), seconds=(h * 60 + mi) * 60 + s, microseconds=us)
+    return td == want
+
+
+@ob(engine='z3', budget=300, bound='every xs:dateTime with year in [10000, 2^31], month, day 1..28, any time of day incl. microseconds (contract model of datetime)',
+    funcs=[D + ':AbstractDateTime.todelta', H + ':days_from_common_era', 'calendar.isleap'])
+def e2_todelta_far_years(ctx):
+    return _todelta_obligation('far')
+
+
+@ob(engine='z3', budget=300, bound='every xs:dateTime with year in [-2^31, -1] (XSD 1.1 numbering), month, day 1..28, any time of day incl. microseconds',
+    funcs=[D + ':AbstractDateTime.todelta', H + ':days_from_common_era', 'calendar.isleap'])
+def e2_todelta_bce(ctx):
+    return _todelta_obligation('bce')
